@@ -37,4 +37,10 @@ CallOK(c) ==
   /\ r.ok
   /\ r.hw <= c.len
   /\ c.exact => c.len = c.decl
+\* memory-safety part of the above (C17): the guard bytes around the window are intact, and a call that COMPLETED was
+\* never granted a take that does not fit the arena (a refused take panics, which is safe)
+CallMemOK(c) ==
+  LET r == Replay(c.takes, 1, {Slice(0, c.len)}, 0) IN
+  /\ c.canary
+  /\ (c.panic = "" => (r.ok /\ r.hw <= c.len))
 =============================================================================
